@@ -149,3 +149,169 @@ pub fn thread_cpu_seconds() -> f64 {
         ts.tv_sec as f64 + ts.tv_nsec as f64 * 1e-9
     }
 }
+
+// ------------------------------------------------------------------------------------
+// Supervision: a check whose code under test may take the whole process down (allocation
+// failure, stack exhaustion, runaway growth) runs as a child of itself. The child marks what
+// it is about to hand to the code under test; if it dies abnormally the parent reports the
+// open marks as the witness of a violation instead of dying silently.
+
+fn supervised_child() -> bool {
+    std::env::var_os("VERIF_SUPERVISED").is_some()
+}
+
+thread_local! {
+    static RISKY_TID: u64 = {
+        static NEXT: std::sync::atomic::AtomicU64 = std::sync::atomic::AtomicU64::new(1);
+        NEXT.fetch_add(1, Ordering::Relaxed)
+    };
+}
+
+/// calls in progress: mark id -> (thread handle, thread CPU seconds at the start)
+static IN_PROGRESS: Mutex<Vec<(u64, libc::pthread_t, f64)>> = Mutex::new(Vec::new());
+static HANG_WATCHDOG: std::sync::Once = std::sync::Once::new();
+/// CPU seconds one call into the code under test may burn before it counts as hanging
+pub const RISKY_CPU_BUDGET_S: f64 = 150.0;
+
+fn cpu_of(thread: libc::pthread_t) -> Option<f64> {
+    // SAFETY: plain libc calls with valid out-pointers; the handle belongs to a live thread
+    // (entries are removed by that thread itself before it exits a call).
+    unsafe {
+        let mut clock: libc::clockid_t = 0;
+        if libc::pthread_getcpuclockid(thread, &mut clock) != 0 {
+            return None;
+        }
+        let mut ts = libc::timespec { tv_sec: 0, tv_nsec: 0 };
+        if libc::clock_gettime(clock, &mut ts) != 0 {
+            return None;
+        }
+        Some(ts.tv_sec as f64 + ts.tv_nsec as f64 * 1e-9)
+    }
+}
+
+/// Marks the start of one call into the code under test (child mode only; a no-op otherwise).
+pub fn risky_begin(describe: impl FnOnce() -> String) {
+    if supervised_child() {
+        let tid = RISKY_TID.with(|t| *t);
+        let text: String = describe().chars().take(700).collect();
+        println!("RISKY-BEGIN {tid} {}", text.replace('\n', " "));
+        // SAFETY: pthread_self has no preconditions
+        let me = unsafe { libc::pthread_self() };
+        IN_PROGRESS.lock().unwrap_or_else(|e| e.into_inner()).push((tid, me, thread_cpu_seconds()));
+        // hang watchdog: decides on the CPU time of the calling thread (independent of machine
+        // load), never on wall-clock time
+        HANG_WATCHDOG.call_once(|| {
+            std::thread::spawn(|| loop {
+                std::thread::sleep(Duration::from_millis(500));
+                let open = IN_PROGRESS.lock().unwrap_or_else(|e| e.into_inner()).clone();
+                for (tid, th, t0) in open {
+                    if let Some(now) = cpu_of(th) {
+                        if now - t0 > RISKY_CPU_BUDGET_S {
+                            println!("RISKY-HANG {tid}");
+                            use std::io::Write;
+                            let _ = std::io::stdout().flush();
+                            std::process::exit(117);
+                        }
+                    }
+                }
+            });
+        });
+    }
+}
+
+pub fn risky_end() {
+    if supervised_child() {
+        let tid = RISKY_TID.with(|t| *t);
+        IN_PROGRESS.lock().unwrap_or_else(|e| e.into_inner()).retain(|e| e.0 != tid);
+        println!("RISKY-END {tid}");
+    }
+}
+
+/// Parent mode: re-runs the current executable with the same arguments as a supervised child
+/// (address space limited to `mem_bytes`), forwards its output, and returns its exit code - or,
+/// if it died abnormally, prints a VIOLATION for `signature` with the open marks and returns 1.
+/// Child mode: applies the memory limit and returns `None` (the caller carries on).
+pub fn supervise(prop: &str, root: &std::path::Path, signature: &str, mem_bytes: u64, wall: Duration) -> Option<i32> {
+    use std::io::{BufRead, BufReader};
+    use std::os::unix::process::ExitStatusExt;
+    use std::process::Stdio;
+    if supervised_child() {
+        limit_self(0, mem_bytes);
+        return None;
+    }
+    let exe = std::env::current_exe().ok()?;
+    let mut cmd = std::process::Command::new(exe);
+    cmd.args(std::env::args().skip(1)).env("VERIF_SUPERVISED", "1").stdout(Stdio::piped()).stdin(Stdio::null());
+    let mut child = match cmd.spawn() {
+        Ok(c) => c,
+        Err(_) => return None, // cannot supervise: run unsupervised
+    };
+    let out = child.stdout.take()?;
+    let open = std::sync::Arc::new(Mutex::new(std::collections::BTreeMap::<String, String>::new()));
+    let open2 = open.clone();
+    let reader = std::thread::spawn(move || {
+        for line in BufReader::new(out).lines().map_while(Result::ok) {
+            if let Some(rest) = line.strip_prefix("RISKY-BEGIN ") {
+                let (tid, text) = rest.split_once(' ').unwrap_or((rest, ""));
+                open2.lock().unwrap_or_else(|e| e.into_inner()).insert(tid.to_string(), text.to_string());
+            } else if let Some(tid) = line.strip_prefix("RISKY-END ") {
+                open2.lock().unwrap_or_else(|e| e.into_inner()).remove(tid.trim());
+            } else if let Some(tid) = line.strip_prefix("RISKY-HANG ") {
+                // keep only the hanging call as the witness
+                let mut o = open2.lock().unwrap_or_else(|e| e.into_inner());
+                let keep = o.remove(tid.trim());
+                o.clear();
+                o.insert("hang".into(), format!("(used more than {RISKY_CPU_BUDGET_S} s of CPU time) {}", keep.unwrap_or_default()));
+            } else {
+                println!("{line}");
+            }
+        }
+    });
+    let start = std::time::Instant::now();
+    let status = loop {
+        match child.try_wait() {
+            Ok(Some(st)) => break Some(st),
+            Ok(None) => {
+                if start.elapsed() > wall {
+                    let _ = child.kill();
+                    let _ = child.wait();
+                    break None;
+                }
+                std::thread::sleep(Duration::from_millis(50));
+            }
+            Err(_) => break None,
+        }
+    };
+    let _ = reader.join();
+    let Some(st) = status else {
+        println!("INCONCLUSIVE property={prop} the supervised run hit the wall-clock watchdog ({} s) - not a verdict", wall.as_secs());
+        return Some(0);
+    };
+    if let Some(code) = st.code() {
+        if code != 101 && code != 134 && code != 117 {
+            return Some(code);
+        }
+    }
+    let how = if st.code() == Some(117) {
+        format!("stopped by the hang watchdog: one call used more than {RISKY_CPU_BUDGET_S} s of CPU time")
+    } else {
+        st.signal().map_or_else(|| format!("exit status {:?}", st.code()), |s| format!("signal {s}"))
+    };
+    let marks: Vec<String> = open.lock().unwrap_or_else(|e| e.into_inner()).values().cloned().collect();
+    if marks.is_empty() {
+        println!("INCONCLUSIVE property={prop} the supervised run died ({how}) outside any call into the code under test - harness problem, not a verdict");
+        return Some(3);
+    }
+    let dir = root.join("replays");
+    let _ = std::fs::create_dir_all(&dir);
+    let path = dir.join(format!("{prop}-aborted.json"));
+    let doc = serde_json::json!({
+        "property": prop, "signature": signature, "how_the_process_died": how,
+        "calls_into_the_code_under_test_that_were_in_progress": marks,
+        "meaning": "the process died (allocation failure / stack exhaustion / abort) or was stopped by the CPU-time hang watchdog while the code under test was handling one of these inputs, under an address-space limit of the stated size",
+        "address_space_limit_bytes": mem_bytes,
+    });
+    let _ = std::fs::write(&path, serde_json::to_string_pretty(&doc).unwrap_or_default());
+    println!("VIOLATION property={prop} replay={} signature={signature} occurrences=1", path.display());
+    Some(1)
+}
